@@ -14,7 +14,7 @@ import (
 func init() {
 	register(&PropSpec{
 		ID:       "C17",
-		Patterns: []string{"./pkg/proxy", "./pkg/router"},
+		Patterns: []string{"./pkg/proxy", "./pkg/router", "./pkg/stream/http2"},
 		Explanation: "(R1) header finalisation order: the route's parser runs before the virtual host's, which runs before the router-global one, for requests and responses; evaluateHeaders applies additions before removals and joins with ',' only when the formatter says append and a non-empty value exists; " +
 			"(R2) short-circuit: in chooseHost the direct-response and redirect arms reply with the rule's own status/body/code and return before any connection pool is looked at; (R3) retry only before the response starts: the retry decision precedes the store downstreamResponseStarted=true which precedes appendHeaders; a reset retries only when !downstreamResponseStarted; doRetry runs only from the Retry phase; " +
 			"(R4) budget: shouldRetry returns NoRetry when the remaining count is 0 and decrements it before any ShouldRetry answer; nothing else writes the budget after construction; (R5) a retry re-selects host and pool and builds a new upstream request from them before sending; " +
@@ -35,6 +35,8 @@ func runC17(c *Ctx) {
 	defer c17Rewrite(c, "pkg/proxy")
 	c.Rule("C17.R9", "request actions (header additions, rewrites) are applied once per request, never again on a retry", 1)
 	defer c17FinalisedOnce(c, "pkg/proxy")
+	c.Rule("C17.R10", "a rewritten path reaches the HTTP/2 upstream: the outgoing URL is rebuilt from the path variable or found equal to it", 1)
+	defer c17RewriteReachesH2Upstream(c)
 	c.Rule("C17.R6", "timeout sources applied lowest priority first; default only when zero", 4)
 	c.NotDecided = append(c.NotDecided, "header values, regex rewrites and URL composition on concrete inputs", "retry-on condition tables (status code lists) on concrete responses")
 
